@@ -6,20 +6,22 @@
    from Prepare on: required_flag_invariant), hence a valid mandatory boundary that fits ends the line at once
    (mandatory_boundary_ends_line_partial).  That every accepted option ends at a cluster boundary of every run is C02
    (wrapped_pieces_exact, through is_valid_sound).
-   Proved over RETURNED lines (mandatory_break_ends_line_partial, Proofs/WrapMand2.v): after Prepare on well-formed runs
-   and any sequence of WrapNextLine calls with any widths, no returned line spans a mandatory boundary that is a cluster
-   boundary of every run - as long as no call has returned a nil line while the wrapper stays live (the pattern of finding
-   F37, on which an option is dropped); that is the only hypothesis beyond the property text.  The proof uses the converse
-   of is_valid_sound (a cluster boundary is always accepted by isValid: is_valid_spec2) and an invariant over the line
-   iterator threaded through both loops, postProcessLine and every call.
-   Under BreakPolicy Never the grapheme fallback is never entered, no call returns a live nil line, and the statement
-   holds with no hypothesis beyond the property text: mandatory_break_ends_line_never (Proofs/WrapGreedy.v).
+   Proved over RETURNED lines (mandatory_break_ends_line, Proofs/WrapMand2.v + Proofs/WrapValid.v), for EVERY break policy
+   and with no hypothesis beyond the property text: after Prepare on well-formed runs and any sequence of WrapNextLine
+   calls with any widths, no call returns a nil line while the wrapper stays live and no returned line spans a mandatory
+   boundary that is a cluster boundary of every run.  The proof uses the converse of is_valid_sound (a cluster boundary is
+   always accepted by isValid: is_valid_spec2) and two invariants over the line iterator threaded through both loops,
+   postProcessLine and every call (valid mandatory boundaries: WrapMand2; all valid boundaries, and "the UAX #14 option
+   handed to the grapheme loop was accepted, so the fallback at the end of that loop cannot be rejected": WrapValid).
+   The former hypothesis no_live_nil (finding F37: a nil line returned while live, the pending option dropped) is gone with
+   the library fix "the grapheme fallback uses the UAX #14 option when it finds no grapheme boundary", which the model
+   follows (word_fallback).  mandatory_break_ends_line_never is the earlier special case for BreakPolicy Never.
    The former counter-example to line_end_allowed on the truncated line (finding F8: the line ended at a boundary between
    two input runs) is repaired in the library (fix 5102a36, followed by the model).
    NOT proved (oracle check_break_positions only): the global statement over RETURNED lines "every returned line end is a
-   permitted position" for non-truncated lines, and the mandatory statement on the lines returned after a live nil line
-   (F37). *)
-From TV Require Import Model.Wrap Spec.Wrap Proofs.Wrap Proofs.WrapLines Proofs.WrapMand Proofs.WrapMand2 Proofs.WrapGreedy.
+   permitted position" for non-truncated lines. *)
+From TV Require Import Model.Wrap Spec.Wrap Proofs.Wrap Proofs.WrapLines Proofs.WrapMand Proofs.WrapMand2 Proofs.WrapGreedy
+  Proofs.WrapValid.
 
 (* every UAX #14 candidate the breaker produces is the rune before a line boundary of the segmenter, candidates come
    in increasing order without skipping a boundary, and a candidate is required only at a mandatory boundary *)
@@ -105,12 +107,15 @@ Proof.
 Qed.
 Print Assumptions required_iff_mandatory.
 
-(* required_flag_invariant: BW holds for the breaker Prepare creates and is kept by the grapheme loop, the UAX #14 loop,
-   WrapNextLine and any sequence of WrapNextLine calls — for every state, fuel, width; no hypothesis on the runs *)
+(* required_flag_invariant: BW (an option pending re-issue is canonical - the register may hold an older option while the
+   flag is clear, after discardWordOption) holds for the breaker Prepare creates and is kept by the grapheme loop (entered
+   with the canonical option nextWordBreak just handed out in unusedWordBreak), the UAX #14 loop, WrapNextLine and any
+   sequence of WrapNextLine calls — for every state, fuel, width; no hypothesis on the runs *)
 Theorem required_flag_invariant :
   (forall attrs, BW (new_breaker attrs))
   /\ (forall fuel w lc w' d, BW (w_br w) -> outer_loop fuel w lc = Ok (w', d) -> BW (w_br w'))
-  /\ (forall fuel w lc w' d, BW (w_br w) -> 1 <= b_wpos (w_br w) <= b_n (w_br w) -> inner_loop fuel w lc = Ok (w', d) -> BW (w_br w'))
+  /\ (forall fuel w wopt lc w' d, BW (w_br w) -> 1 <= b_wpos (w_br w) <= b_n (w_br w) ->
+        canonical (b_attrs (w_br w)) (b_n (w_br w)) (b_unusedW (w_br w)) -> inner_loop fuel w wopt lc = Ok (w', d) -> BW (w_br w'))
   /\ (forall w mw w' wl d, BW (w_br w) -> wrap_next_line w mw = Ok (w', wl, d) -> BW (w_br w'))
   /\ (forall widths w w' rs, BW (w_br w) -> run_calls w widths = Ok (w', rs) -> BW (w_br w')).
 Proof. split; [exact BW_new|]. split; [exact outer_BW|]. split; [exact inner_BW|]. split; [exact wnl_BW|exact run_calls_BW]. Qed.
@@ -151,18 +156,15 @@ Proof. split; [apply BW_new|]. vm_compute. repeat split; reflexivity. Qed.
    runes [pos, NextLine) where pos is the NextLine of the previous call (mand_ok): no position p strictly inside it is a
    valid mandatory break, i.e. line_boundary attrs p, mandatory_boundary attrs p (Spec/Wrap.v) and cluster_boundary of every
    run on the entry store (valid_mandatory; p < NextLine <= n, so p is never the text end; the cluster fields are never
-   changed by a call).  This holds for every recorded call (for a nil line the range is empty).
-   The ONLY hypothesis beyond the property text is no_live_nil rs: no call returned a nil line with done = false, the
-   pattern of known finding F37 (there the pending option is dropped and the next line may span a mandatory break); hence
-   the name _partial.  The statement for the k-th call alone follows by applying the theorem to the first k widths
-   (run_calls on a prefix of the widths records a prefix of the results), so only the calls before it must avoid F37. *)
-Theorem mandatory_break_ends_line_partial : forall n w cfg attrs runs widths w' rs,
+   changed by a call).  This holds for every recorded call (for a nil line the range is empty), every break policy, and
+   no_live_nil rs is part of the CONCLUSION: no call returns a nil line with done = false (before the repair of finding
+   F37 this was a hypothesis, and the theorem was named _partial). *)
+Theorem mandatory_break_ends_line : forall n w cfg attrs runs widths w' rs,
   wf_runs (w_st w) runs n = true -> zlen attrs - 1 = n -> 1 <= n ->
   run_calls (prepare w cfg attrs runs 0 0) widths = Ok (w', rs) ->
-  no_live_nil rs = true ->
-  mand_ok (valid_mandatory attrs (w_st w) runs) 0 rs.
-Proof. exact mandatory_lines_all. Qed.
-Print Assumptions mandatory_break_ends_line_partial.
+  no_live_nil rs = true /\ mand_ok (valid_mandatory attrs (w_st w) runs) 0 rs.
+Proof. exact mandatory_lines_full. Qed.
+Print Assumptions mandatory_break_ends_line.
 
 (* non-vacuity: "a LF b SP c" (5 runes, one left-to-right run of 1:1 glyphs), width 1000 >= the whole paragraph (256):
    position 2 is a valid mandatory break strictly inside the text, the hypotheses hold, no call returns a live nil line,
@@ -185,9 +187,26 @@ Proof.
   eexists _, _. split; [vm_compute; reflexivity|]. vm_compute. repeat split; reflexivity.
 Qed.
 
-(* mandatory_break_ends_line for BreakPolicy Never, full: Prepare with policy Never on well-formed runs, ANY number of
-   WrapNextLine calls with ANY widths: no call returns a nil line while the wrapper stays live (the F37 pattern cannot
-   occur: it needs the grapheme fallback), and no returned line has a valid mandatory break strictly inside it. *)
+(* regression of finding F37 on the model: runes a SP U+0301 b b, clusters "a SP" (one glyph, 3 px), U+0301, b, b; width 2,
+   policy WhenNecessary.  Position 2 (after the space) is a UAX #14 opportunity but not a grapheme boundary; the option does
+   not fit and no grapheme boundary before it is usable: the first call returns "a SP" = [0,2) (before the repair: a nil line,
+   not done), the second "U+0301 b b" = [2,5) *)
+Example live_calls_return_lines_example :
+  let st := [[mkGlyph 0 2 1 192 192 0 0 0; mkGlyph 2 1 1 0 64 0 0 0; mkGlyph 3 1 1 64 64 0 0 0; mkGlyph 4 1 1 64 64 0 0 0]; []] in
+  let attrs := [4; 4; 1; 4; 4; 7] in
+  let runs := [mkOut 320 0 0 5 0 0 4 0] in
+  wf_runs st runs 5 = true /\ zlen attrs - 1 = 5
+  /\ exists w' rs, run_calls (prepare (w_zero st) cfg_zero attrs runs 0 0) [2; 2; 2] = Ok (w', rs)
+       /\ no_live_nil rs = true
+       /\ map (fun x => (wl_next (fst x), snd x)) rs = [(2, false); (5, true); (5, true)].
+Proof.
+  cbv zeta. split; [vm_compute; reflexivity|]. split; [vm_compute; reflexivity|].
+  eexists _, _. split; [vm_compute; reflexivity|]. vm_compute. repeat split; reflexivity.
+Qed.
+
+(* mandatory_break_ends_line for BreakPolicy Never (the earlier special case, kept): Prepare with policy Never on
+   well-formed runs, ANY number of WrapNextLine calls with ANY widths: no call returns a nil line while the wrapper stays
+   live, and no returned line has a valid mandatory break strictly inside it. *)
 Theorem mandatory_break_ends_line_never : forall n w cfg attrs runs widths w' rs,
   wf_runs (w_st w) runs n = true -> zlen attrs - 1 = n -> 1 <= n -> c_policy cfg = 1 ->
   run_calls (prepare w cfg attrs runs 0 0) widths = Ok (w', rs) ->
